@@ -1156,3 +1156,26 @@ def _iter_cmp(I, a, ci, dt):
     if ci.method == 'cmp':
         return o
     return {'lt': o.v == 0, 'le': o.v != 2, 'gt': o.v == 2, 'ge': o.v != 0}[ci.method]
+
+
+@reg('Vec::dedup_by_key', 'Vec::dedup_by', 'Vec::dedup')
+def _vec_dedup(I, a, ci, dt):
+    """Removes consecutive duplicates (by key / by predicate / by equality), keeping the first of a run."""
+    from .models import vec_ref, call_closure, values_equal
+    r = vec_ref(I, a[0])
+    v = I.load(r)
+    out = []
+    for x in v.items:
+        if out:
+            prev = out[-1]
+            if ci.method == 'dedup_by_key':
+                same = values_equal(I, call_closure(I, a[1], Ref(Cell(prev), ())), call_closure(I, a[1], Ref(Cell(x), ())))
+            elif ci.method == 'dedup_by':
+                same = call_closure(I, a[1], Ref(Cell(x), ()), Ref(Cell(prev), ()))
+            else:
+                same = values_equal(I, prev, x)
+            if I.branch(same) if not isinstance(same, bool) else same:
+                continue
+        out.append(x)
+    I.store(r, VecVal(out))
+    return UNIT
